@@ -36,26 +36,26 @@ func (m byteMut) String() string {
 }
 
 func genXor(t *rapid.T) byte {
-	if rapid.IntRange(0, 3).Draw(t, "xorKind") == 0 {
-		return byte(1) << uint(rapid.IntRange(0, 7).Draw(t, "bit"))
+	if uniR(t, 0, 3, "xorKind") == 0 {
+		return byte(1) << uint(uniR(t, 0, 7, "bit"))
 	}
-	return byte(rapid.IntRange(1, 255).Draw(t, "xor"))
+	return byte(uniR(t, 1, 255, "xor"))
 }
 
 func genUnsignedMut(t *rapid.T, lay *layout) byteMut {
 	var off int
-	switch rapid.IntRange(0, 5).Draw(t, "where") {
+	switch uniR(t, 0, 5, "where") {
 	case 0: // header fields: version, type, nonce, gas price, gas limit
-		off = rapid.IntRange(0, payerOff-1).Draw(t, "off")
+		off = uniR(t, 0, payerOff-1, "off")
 	case 1: // last byte of the signed content (attribute count) and the bytes before it
-		off = lay.UnsignedLen - 1 - rapid.IntRange(0, 2).Draw(t, "back")
+		off = lay.UnsignedLen - 1 - uniR(t, 0, 2, "back")
 	case 2: // first bytes of the payload (length prefix)
-		off = payerOff + 20 + rapid.IntRange(0, 2).Draw(t, "plOff")
+		off = payerOff + 20 + uniR(t, 0, 2, "plOff")
 		if off >= lay.UnsignedLen {
 			off = lay.UnsignedLen - 1
 		}
 	default:
-		off = rapid.IntRange(0, lay.UnsignedLen-1).Draw(t, "off")
+		off = uniR(t, 0, lay.UnsignedLen-1, "off")
 	}
 	cl := "unsigned"
 	if off >= payerOff && off < payerOff+20 {
@@ -65,15 +65,15 @@ func genUnsignedMut(t *rapid.T, lay *layout) byteMut {
 }
 
 func genPayerMut(t *rapid.T) byteMut {
-	return byteMut{Class: "payer", Off: payerOff + rapid.IntRange(0, 19).Draw(t, "payerOff"), Xor: genXor(t)}
+	return byteMut{Class: "payer", Off: payerOff + uniR(t, 0, 19, "payerOff"), Xor: genXor(t)}
 }
 
 func genSigMut(t *rapid.T, lay *layout) byteMut {
-	i := rapid.IntRange(0, len(lay.SigData)-1).Draw(t, "sigIdx")
+	i := uniR(t, 0, len(lay.SigData)-1, "sigIdx")
 	sp := lay.SigData[i]
 	n := sp.To - sp.From
 	var rel int
-	switch rapid.IntRange(0, 9).Draw(t, "sigWhere") {
+	switch uniR(t, 0, 9, "sigWhere") {
 	case 0:
 		rel = 0
 	case 1, 2:
@@ -81,7 +81,7 @@ func genSigMut(t *rapid.T, lay *layout) byteMut {
 	case 3:
 		rel = n / 2
 	default:
-		rel = rapid.IntRange(0, n-1).Draw(t, "sigOff")
+		rel = uniR(t, 0, n-1, "sigOff")
 	}
 	return byteMut{Class: "sig", Off: sp.From + rel, Xor: genXor(t), Sig: &sp}
 }
@@ -105,12 +105,26 @@ func pickSet(t *rapid.T, tx *txSpec, pred func(*setSpec) bool) (int, *setSpec) {
 	if len(idx) == 0 {
 		return -1, nil
 	}
-	i := idx[rapid.IntRange(0, len(idx)-1).Draw(t, "set")]
+	i := idx[uniR(t, 0, len(idx)-1, "set")]
 	return i, tx.Sets[i]
 }
 
-func anySet(*setSpec) bool    { return true }
-func multiSet(s *setSpec) bool { return s.Multi }
+func anySet(s *setSpec) bool   { return len(s.Keys) > 0 }
+func multiSet(s *setSpec) bool { return s.Multi && len(s.Keys) > 0 }
+func withSigs(s *setSpec) bool { return len(s.Keys) > 0 && len(s.Sigs) > 0 }
+
+// signedBy: the first k signatures exist and were made by zoo keys
+func signedBy(s *setSpec, k int) bool {
+	if len(s.Sigs) < k {
+		return false
+	}
+	for _, g := range s.Sigs[:k] {
+		if g.Signer == nil {
+			return false
+		}
+	}
+	return true
+}
 
 func isSigner(s *setSpec, z *fix.ZooKey) int {
 	for i, g := range s.Sigs {
@@ -141,7 +155,7 @@ func drawAltEnc(t *rapid.T, z *fix.ZooKey) (keyEnc, []byte, bool) {
 	if len(alts) == 0 {
 		return encCanon, nil, false
 	}
-	e := rapid.SampledFrom(alts).Draw(t, "enc")
+	e := pick(t, alts, "enc")
 	var junk []byte
 	if e == encTrailing {
 		junk = rapid.SliceOfN(rapid.Byte(), 1, 3).Draw(t, "junk")
@@ -150,7 +164,7 @@ func drawAltEnc(t *rapid.T, z *fix.ZooKey) (keyEnc, []byte, bool) {
 }
 
 func drawPush(t *rapid.T) pushStyle {
-	return rapid.SampledFrom([]pushStyle{pushData1, pushData2, pushData4}).Draw(t, "push")
+	return pick(t, []pushStyle{pushData1, pushData2, pushData4}, "push")
 }
 
 var structMuts = []structMut{
@@ -172,7 +186,7 @@ var structMuts = []structMut{
 				c = append(c, i)
 			}
 		}
-		ki := c[rapid.IntRange(0, len(c)-1).Draw(t, "key")]
+		ki := c[uniR(t, 0, len(c)-1, "key")]
 		e, junk, _ := drawAltEnc(t, s.Keys[ki].Z)
 		s.Keys[ki].Enc, s.Keys[ki].Junk = e, junk
 		return fmt.Sprintf("set%d.key%d:%s:%s", si, ki, s.Keys[ki].Z.Kind, e)
@@ -194,16 +208,16 @@ var structMuts = []structMut{
 		if s == nil {
 			return ""
 		}
-		ki := rapid.IntRange(0, len(s.Keys)-1).Draw(t, "key")
+		ki := uniR(t, 0, len(s.Keys)-1, "key")
 		s.Keys[ki].Push = drawPush(t)
 		return fmt.Sprintf("set%d.key%d:%s", si, ki, s.Keys[ki].Push)
 	}},
 	{"push-sig", func(t *rapid.T, tx *txSpec) string {
-		si, s := pickSet(t, tx, anySet)
+		si, s := pickSet(t, tx, withSigs)
 		if s == nil {
 			return ""
 		}
-		gi := rapid.IntRange(0, len(s.Sigs)-1).Draw(t, "sig")
+		gi := uniR(t, 0, len(s.Sigs)-1, "sig")
 		s.Sigs[gi].Push = drawPush(t)
 		return fmt.Sprintf("set%d.sig%d:%s", si, gi, s.Sigs[gi].Push)
 	}},
@@ -212,7 +226,7 @@ var structMuts = []structMut{
 		if s == nil {
 			return ""
 		}
-		s.NStyle = rapid.SampledFrom([]numStyle{numBytes1, numBytesBE2, numBytesLE2, numData1}).Draw(t, "nstyle")
+		s.NStyle = pick(t, []numStyle{numBytes1, numBytesBE2, numBytesLE2, numData1}, "nstyle")
 		return fmt.Sprintf("set%d:%s", si, s.NStyle)
 	}},
 	{"m-bytes", func(t *rapid.T, tx *txSpec) string {
@@ -220,7 +234,7 @@ var structMuts = []structMut{
 		if s == nil {
 			return ""
 		}
-		s.MStyle = rapid.SampledFrom([]numStyle{numBytes1, numData1, numBytesLE2}).Draw(t, "mstyle")
+		s.MStyle = pick(t, []numStyle{numBytes1, numData1, numBytesLE2}, "mstyle")
 		return fmt.Sprintf("set%d:%s", si, s.MStyle)
 	}},
 	{"n-wrong", func(t *rapid.T, tx *txSpec) string {
@@ -228,12 +242,12 @@ var structMuts = []structMut{
 		if s == nil {
 			return ""
 		}
-		s.NValue = len(s.Keys) + rapid.SampledFrom([]int{-1, 1}).Draw(t, "dn")
+		s.NValue = len(s.Keys) + pick(t, []int{-1, 1}, "dn")
 		return fmt.Sprintf("set%d:n=%d", si, s.NValue)
 	}},
 	// the same key listed twice and ONE key's signature supplied twice: m distinct keys did not sign
 	{"dup-key-counted", func(t *rapid.T, tx *txSpec) string {
-		si, s := pickSet(t, tx, func(s *setSpec) bool { return s.Multi && s.M >= 2 })
+		si, s := pickSet(t, tx, func(s *setSpec) bool { return s.Multi && s.M >= 2 && signedBy(s, 2) && s.Sigs[0].Signer != s.Sigs[1].Signer })
 		if s == nil {
 			return ""
 		}
@@ -253,16 +267,21 @@ var structMuts = []structMut{
 	}},
 	// the same key listed twice but m distinct keys still sign
 	{"dup-key-benign", func(t *rapid.T, tx *txSpec) string {
-		si, s := pickSet(t, tx, func(s *setSpec) bool { return s.Multi && s.M < len(s.Keys) })
+		si, s := pickSet(t, tx, func(s *setSpec) bool { return s.Multi && s.M < len(s.Keys) && signedBy(s, 1) })
 		if s == nil {
 			return ""
 		}
 		a := s.Sigs[0].Signer
+		done := false
 		for i := range s.Keys {
 			if isSigner(s, s.Keys[i].Z) < 0 {
 				s.Keys[i] = keyItem{Z: a}
+				done = true
 				break
 			}
+		}
+		if !done {
+			return ""
 		}
 		return fmt.Sprintf("set%d:%s twice", si, keyName(a))
 	}},
@@ -272,7 +291,7 @@ var structMuts = []structMut{
 			return ""
 		}
 		v := append([]byte{}, s.verifyScript()...)
-		how := rapid.IntRange(0, 6).Draw(t, "how")
+		how := uniR(t, 0, 6, "how")
 		switch how {
 		case 0:
 			v = append([]byte{0x61}, v...) // NOP in front
@@ -281,13 +300,13 @@ var structMuts = []structMut{
 		case 2:
 			v = append(v[:len(v)-1], 0x61, v[len(v)-1]) // NOP before the final opcode
 		case 3:
-			v = v[:rapid.IntRange(0, len(v)-1).Draw(t, "cut")]
+			v = v[:uniR(t, 0, len(v)-1, "cut")]
 		case 4:
 			v = rapid.SliceOfN(rapid.Byte(), 0, 40).Draw(t, "random")
 		case 5:
 			v = append(v[:len(v)-1], 0x51, v[len(v)-1]) // extra PUSH1 before the final opcode
 		default:
-			v[len(v)-1] = byte(rapid.SampledFrom([]int{0xad, 0xaf, 0xac, 0xae, 0x00}).Draw(t, "endop"))
+			v[len(v)-1] = byte(pick(t, []int{0xad, 0xaf, 0xac, 0xae, 0x00}, "endop"))
 		}
 		s.RawVerify = v
 		if s.RawVerify == nil {
@@ -296,7 +315,7 @@ var structMuts = []structMut{
 		return fmt.Sprintf("set%d:how%d", si, how)
 	}},
 	{"junk-invoke", func(t *rapid.T, tx *txSpec) string {
-		si, s := pickSet(t, tx, anySet)
+		si, s := pickSet(t, tx, withSigs)
 		if s == nil {
 			return ""
 		}
@@ -304,14 +323,14 @@ var structMuts = []structMut{
 		for _, g := range s.Sigs {
 			inv = pushData(inv, g.Data, g.Push)
 		}
-		how := rapid.IntRange(0, 4).Draw(t, "how")
+		how := uniR(t, 0, 4, "how")
 		switch how {
 		case 0:
 			inv = append(inv, 0x61)
 		case 1:
 			inv = append([]byte{0x51}, inv...)
 		case 2:
-			inv = inv[:rapid.IntRange(0, len(inv)-1).Draw(t, "cut")]
+			inv = inv[:uniR(t, 0, len(inv)-1, "cut")]
 		case 3:
 			inv = append(inv, 0x00)
 		default:
@@ -324,11 +343,11 @@ var structMuts = []structMut{
 		return fmt.Sprintf("set%d:how%d", si, how)
 	}},
 	{"drop-sig", func(t *rapid.T, tx *txSpec) string {
-		si, s := pickSet(t, tx, anySet)
+		si, s := pickSet(t, tx, withSigs)
 		if s == nil {
 			return ""
 		}
-		gi := rapid.IntRange(0, len(s.Sigs)-1).Draw(t, "sig")
+		gi := uniR(t, 0, len(s.Sigs)-1, "sig")
 		s.Sigs = append(s.Sigs[:gi], s.Sigs[gi+1:]...)
 		return fmt.Sprintf("set%d.sig%d", si, gi)
 	}},
@@ -337,7 +356,7 @@ var structMuts = []structMut{
 		if s == nil {
 			return ""
 		}
-		gi := rapid.IntRange(1, len(s.Sigs)-1).Draw(t, "sig")
+		gi := uniR(t, 1, len(s.Sigs)-1, "sig")
 		s.Sigs[gi] = s.Sigs[0]
 		return fmt.Sprintf("set%d.sig%d:=sig0", si, gi)
 	}},
@@ -358,7 +377,7 @@ var structMuts = []structMut{
 			if isSigner(s, k.Z) < 0 {
 				h := tx.hash()
 				g := sigItem{Signer: k.Z, Data: signWith(k.Z, h[:])}
-				pos := rapid.IntRange(0, len(s.Sigs)).Draw(t, "pos")
+				pos := uniR(t, 0, len(s.Sigs), "pos")
 				s.Sigs = append(s.Sigs[:pos], append([]sigItem{g}, s.Sigs[pos:]...)...)
 				return fmt.Sprintf("set%d:+%s@%d", si, keyName(k.Z), pos)
 			}
@@ -372,31 +391,31 @@ var structMuts = []structMut{
 		}
 		g := sigItem{Data: rapid.SliceOfN(rapid.Byte(), 1, 70).Draw(t, "garbage")}
 		pos := len(s.Sigs)
-		if rapid.IntRange(0, 2).Draw(t, "front") == 0 {
-			pos = rapid.IntRange(0, len(s.Sigs)).Draw(t, "pos")
+		if uniR(t, 0, 2, "front") == 0 {
+			pos = uniR(t, 0, len(s.Sigs), "pos")
 		}
 		s.Sigs = append(s.Sigs[:pos], append([]sigItem{g}, s.Sigs[pos:]...)...)
 		return fmt.Sprintf("set%d:+garbage%d@%d", si, len(g.Data), pos)
 	}},
 	{"nonmember-sig", func(t *rapid.T, tx *txSpec) string {
-		si, s := pickSet(t, tx, anySet)
+		si, s := pickSet(t, tx, withSigs)
 		if s == nil {
 			return ""
 		}
-		gi := rapid.IntRange(0, len(s.Sigs)-1).Draw(t, "sig")
+		gi := uniR(t, 0, len(s.Sigs)-1, "sig")
 		o := outsider(t, s)
 		h := tx.hash()
 		s.Sigs[gi] = sigItem{Signer: o, Data: signWith(o, h[:])}
 		return fmt.Sprintf("set%d.sig%d by %s", si, gi, keyName(o))
 	}},
 	{"wrong-hash-sig", func(t *rapid.T, tx *txSpec) string {
-		si, s := pickSet(t, tx, anySet)
+		si, s := pickSet(t, tx, func(s *setSpec) bool { return withSigs(s) && signedBy(s, len(s.Sigs)) })
 		if s == nil {
 			return ""
 		}
-		gi := rapid.IntRange(0, len(s.Sigs)-1).Draw(t, "sig")
+		gi := uniR(t, 0, len(s.Sigs)-1, "sig")
 		h := tx.hash()
-		h[rapid.IntRange(0, 31).Draw(t, "hbyte")] ^= 1
+		h[uniR(t, 0, 31, "hbyte")] ^= 1
 		s.Sigs[gi].Data = signWith(s.Sigs[gi].Signer, h[:])
 		return fmt.Sprintf("set%d.sig%d", si, gi)
 	}},
@@ -411,13 +430,13 @@ var structMuts = []structMut{
 		if len(tx.Sets) < 2 {
 			return ""
 		}
-		i := rapid.IntRange(0, len(tx.Sets)-2).Draw(t, "i")
+		i := uniR(t, 0, len(tx.Sets)-2, "i")
 		a, b := tx.Sets[i], tx.Sets[i+1]
 		a.Sigs, b.Sigs = b.Sigs, a.Sigs
 		return fmt.Sprintf("set%d<->set%d", i, i+1)
 	}},
 	{"dup-set", func(t *rapid.T, tx *txSpec) string {
-		i := rapid.IntRange(0, len(tx.Sets)-1).Draw(t, "i")
+		i := uniR(t, 0, len(tx.Sets)-1, "i")
 		tx.Sets = append(tx.Sets, tx.Sets[i].clone())
 		return fmt.Sprintf("set%d again (%d sets)", i, len(tx.Sets))
 	}},
@@ -425,7 +444,7 @@ var structMuts = []structMut{
 		if len(tx.Sets) < 2 {
 			return ""
 		}
-		i := rapid.IntRange(0, len(tx.Sets)-1).Draw(t, "i")
+		i := uniR(t, 0, len(tx.Sets)-1, "i")
 		tx.Sets = append(tx.Sets[:i], tx.Sets[i+1:]...)
 		return fmt.Sprintf("set%d", i)
 	}},
@@ -451,11 +470,53 @@ var structMuts = []structMut{
 			return ""
 		}
 		v := append([]byte{}, s.verifyScript()...)
-		off := rapid.IntRange(0, len(v)-1).Draw(t, "off")
+		off := uniR(t, 0, len(v)-1, "off")
 		x := genXor(t)
 		v[off] ^= x
 		s.RawVerify = v
 		return fmt.Sprintf("set%d@%d^%02x", si, off, x)
+	}},
+	// an uncompressed EC key whose point is NOT on the curve (accepted by the key decoder), optionally with a
+	// signature of a foreign scheme in front of it (SM2-scheme for NIST keys, ECDSA-scheme for SM2 keys)
+	{"offcurve-key", func(t *rapid.T, tx *txSpec) string {
+		si, s := pickSet(t, tx, func(s *setSpec) bool {
+			for _, k := range s.Keys {
+				if k.Raw == nil && ecPub(k.Z) != nil {
+					return true
+				}
+			}
+			return false
+		})
+		if s == nil {
+			return ""
+		}
+		var c []int
+		for i, k := range s.Keys {
+			if k.Raw == nil && ecPub(k.Z) != nil {
+				c = append(c, i)
+			}
+		}
+		ki := c[uniR(t, 0, len(c)-1, "key")]
+		z := s.Keys[ki].Z
+		kb := append([]byte{}, encodeKey(z, encUncompressed, nil)...)
+		kb[len(kb)-1-uniR(t, 0, 3, "ybyte")] ^= genXor(t)
+		s.Keys[ki].Raw = kb
+		how := fmt.Sprintf("set%d.key%d:%s", si, ki, z.Kind)
+		if len(s.Sigs) > 0 && uniR(t, 0, 2, "foreignSig") > 0 {
+			rs := rapid.SliceOfN(rapid.Byte(), 64, 64).Draw(t, "rs")
+			rs[0] &= 0x7f
+			rs[32] &= 0x7f
+			var sig []byte
+			if z.Kind == fix.KSM2 {
+				sig = append([]byte{byte(uniR(t, 0, 3, "scheme"))}, rs...)
+				how += "+ecdsa-scheme-sig"
+			} else {
+				sig = append([]byte{0x09, 0x00}, rs...)
+				how += "+sm2-scheme-sig"
+			}
+			s.Sigs[0] = sigItem{Data: sig}
+		}
+		return how
 	}},
 	{"sig-alt65", func(t *rapid.T, tx *txSpec) string {
 		for si, s := range tx.Sets {
@@ -469,26 +530,44 @@ var structMuts = []structMut{
 		return ""
 	}},
 	{"truncate-sig", func(t *rapid.T, tx *txSpec) string {
-		si, s := pickSet(t, tx, anySet)
+		si, s := pickSet(t, tx, func(s *setSpec) bool { return withSigs(s) && signedBy(s, len(s.Sigs)) })
 		if s == nil {
 			return ""
 		}
-		gi := rapid.IntRange(0, len(s.Sigs)-1).Draw(t, "sig")
+		gi := uniR(t, 0, len(s.Sigs)-1, "sig")
 		d := s.Sigs[gi].Data
-		n := rapid.IntRange(0, len(d)-1).Draw(t, "len")
+		if len(d) == 0 {
+			return ""
+		}
+		var n int
+		switch uniR(t, 0, 3, "cutKind") {
+		case 0:
+			n = len(d) - 1 // drop the last byte only
+		case 1:
+			n = uniR(t, 0, minInt(4, len(d)-1), "len") // scheme byte plus almost nothing
+		default:
+			n = uniR(t, 0, len(d)-1, "len")
+		}
 		s.Sigs[gi] = sigItem{Signer: s.Sigs[gi].Signer, Push: s.Sigs[gi].Push, Data: append([]byte{}, d[:n]...)}
 		return fmt.Sprintf("set%d.sig%d:%s:len%d", si, gi, keyName(s.Sigs[gi].Signer), n)
 	}},
 	{"extend-sig", func(t *rapid.T, tx *txSpec) string {
-		si, s := pickSet(t, tx, anySet)
+		si, s := pickSet(t, tx, withSigs)
 		if s == nil {
 			return ""
 		}
-		gi := rapid.IntRange(0, len(s.Sigs)-1).Draw(t, "sig")
+		gi := uniR(t, 0, len(s.Sigs)-1, "sig")
 		extra := rapid.SliceOfN(rapid.Byte(), 1, 3).Draw(t, "extra")
 		s.Sigs[gi].Data = append(append([]byte{}, s.Sigs[gi].Data...), extra...)
 		return fmt.Sprintf("set%d.sig%d+%x", si, gi, extra)
 	}},
+}
+
+func minInt(a, b int) int {
+	if a < b {
+		return a
+	}
+	return b
 }
 
 func structMutNames() []string {
